@@ -168,7 +168,9 @@ def _loop (ctx, repo, f, L):
           cnts = set(sum(1 for x_ in p_ if x_ in advn) for p_, e_ in ps_)
           if cnts == {1}: good = True; iv = (1, 1); break
         # flags set at the top of the iteration (`problem = None`) are only known on paths that start at the loop head
-        ps_ = q.paths_under(repo, mod, g, env0_, L.head, [L.head, L.after, g.exit, g.raise_exit], f.cls, limit=600)
+        # (from the loop head the declared length is re-read on the way: a sample value for every later read of that name)
+        envh_ = env0_ if not env0_.exact else q.Env({}, [((lambda e: isinstance(e, ast.Name) and isinstance(e.ctx, ast.Load) and e.id == L.wlen), 12)])
+        ps_ = q.paths_under(repo, mod, g, envh_, L.head, [L.head, L.after, g.exit, g.raise_exit], f.cls, limit=600)
         if ps_ and len(ps_) < 600:
           thru = [p_ for p_, e_ in ps_ if n in p_ and p_[-1] is L.head]
           cnts = set(sum(1 for x_ in p_[p_.index(n):] if x_ in advn) for p_ in thru)
@@ -183,6 +185,14 @@ def _loop (ctx, repo, f, L):
       if ps_ and len(ps_) < 400:
         cnts = [sum(1 for x_ in p_ if x_ in advn) for p_, e_ in ps_]
         if min(cnts) >= 1: ivx = (min(cnts), max(cnts))
+      if ivx[0] < 1:
+        # flags set at the top of the iteration: enumerate from the loop head, count from the decode on
+        envh_ = q.Env({}, [((lambda e: isinstance(e, ast.Name) and isinstance(e.ctx, ast.Load) and e.id == L.wlen), 12)])
+        ps_ = q.paths_under(repo, mod, g, envh_, L.head, [L.head, L.after, g.exit, g.raise_exit], f.cls, limit=800, exc=True)
+        if ps_ and len(ps_) < 800:
+          thru = [p_ for p_, e_ in ps_ if n in p_ and p_[-1] is L.head]
+          cnts = [sum(1 for x_ in p_[p_.index(n):] if x_ in advn) for p_ in thru]
+          if cnts and min(cnts) >= 1: ivx = (min(cnts), max(cnts))
     if iv == (1, 1) and ivx is not None and ivx[0] >= 1 and ivx[1] > 1:
       # ... and not twice: a consume added to the handler of a delivery whose message was already consumed drops the next message's bytes
       advn = [a[0] for a in L.advance]
@@ -220,7 +230,24 @@ def _loop (ctx, repo, f, L):
           ps_ = q.paths_under(repo, mod, g, q.Env({L.wlen: 12} if L.wlen else {}, [], hookN_), h_, [n, L.head, L.after, g.exit, g.raise_exit], f.cls, limit=200, track_start=True)
           if not ps_ or len(ps_) >= 200: via.append(None)
           else: via += [p_ for p_, e_ in ps_ if p_[-1] is n]
+      if via:
+        # the same from the loop head (flags of the iteration known): does any feasible path run through a handler of the decode and still deliver?
+        envh_ = q.Env({}, [((lambda e: isinstance(e, ast.Name) and isinstance(e.ctx, ast.Load) and e.id == L.wlen), 12)], hookN_)
+        hs_all = [h_ for d in L.decode for h_ in g.handlers_for(d[0])]
+        ps_ = q.paths_under(repo, mod, g, envh_, L.head, [n, L.head, L.after, g.exit, g.raise_exit], f.cls, limit=800, exc=True)
+        if ps_ and len(ps_) < 800 and not [p_ for p_, e_ in ps_ if p_[-1] is n and any(h_ in p_ for h_ in hs_all)]: via = []
       if not via: dec_dom = True
+    if not dec_dom:
+      # no structural dominance (the decode sits in one arm of a ladder that records what went wrong in a flag): every feasible
+      # path from the loop head to the delivery runs through the decode and through none of its handlers
+      try:
+        def hookM_ (call, env=None): return (True, None) if call_name(call) == '_error_handler' else (False, None)
+        envh_ = q.Env({}, [((lambda e: isinstance(e, ast.Name) and isinstance(e.ctx, ast.Load) and e.id == L.wlen), 12)], hookM_)
+        decs_ = [d[0] for d in L.decode]; hs_all = [h_ for d in L.decode for h_ in g.handlers_for(d[0])]
+        ps_ = q.paths_under(repo, mod, g, envh_, L.head, [n, L.head, L.after, g.exit, g.raise_exit], f.cls, limit=800, exc=True)
+        to_n = [p_ for p_, e_ in ps_ if p_[-1] is n] if ps_ and len(ps_) < 800 else []
+        if to_n and all(any(d_ in p_ for d_ in decs_) and not any(h_ in p_ for h_ in hs_all) for p_ in to_n): dec_dom = True
+      except Exception: pass
     ctx.ob('R-ORDER', f, "the delivered object is the one just decoded", good and dec_dom, "decode dominates delivery of %s" % L.msgvar, (mod, c), 'D5')
   # a delivery that raised must not end the loop: the complete messages behind it in the buffer are still owed
   # (decided with the error handler's summary for the constant reason it is called with)
